@@ -34,12 +34,34 @@
 (* Each key gets class FreeClasses[(index of key + offset) mod 12], so that*)
 (* over the offsets every key takes every class and the keys of a shape    *)
 (* take different classes.                                                 *)
+(*                                                                         *)
+(* Scenario kinds (constant Kinds)                                         *)
+(*   lattice  the presence lattice described above                         *)
+(*   vocab    "everything else is removed", with the unlisted keys drawn   *)
+(*            from a VOCABULARY instead of a handful of invented names:    *)
+(*            every JSON member name that occurs in the sources of the     *)
+(*            library under test (gathered by checks/c05.py at check time, *)
+(*            read here from the file IOEnv.C05_VOCAB), minus the names    *)
+(*            the algorithm lists for the position.  The vocabulary is     *)
+(*            rotated over the records in chunks of ChunkSize names, at    *)
+(*            the top level and inside the content of every event type.    *)
+(*   hist     redaction is a FUNCTION of the event: the process that       *)
+(*            redacts `e` has handled other calls before (history variable *)
+(*            `hist`, actions EarlierAccepted / EarlierRefused: events     *)
+(*            whose every listed key carries the value class "poison",     *)
+(*            some of them refused because `content` is not an object or   *)
+(*            `type` not a string).  r0 is the result in a process without *)
+(*            history; PHistory: the result after any history is r0 and    *)
+(*            holds no value of an earlier call.                           *)
 (***************************************************************************)
-EXTENDS Redaction, Json
+EXTENDS Redaction, Json, IOUtils
 
 CONSTANTS Versions,     \* room versions to enumerate
           FullVersions, \* room versions that get the full lattice at the full offsets (the others: lite)
-          Family,       \* "raw" | "pdu"
+          Families,     \* subset of {"raw", "pdu"}
+          Kinds,        \* subset of {"lattice", "vocab", "hist"}
+          ChunkSize,    \* vocab: vocabulary names per record
+          MaxHist,      \* hist: longest history enumerated
           FullOffsets,  \* offsets enumerated with the full pairwise lattice
           LiteOffsets,  \* offsets enumerated with none / singles / all only
           AllOnlyOffsets \* offsets enumerated with the shape "all" only (every key still takes the class)
@@ -54,9 +76,18 @@ OffAll == 0..11
 OffLow == 0..5
 OffHigh == 6..11
 OffNone == {}
+FamRaw == {"raw"}
+FamPdu == {"pdu"}
+FamBoth == {"raw", "pdu"}
+KindsLattice == {"lattice"}
+KindsExtra == {"vocab", "hist"}
 
-VARIABLES ver, e, r1, r2, phase
-vars == <<ver, e, r1, r2, phase>>
+VARIABLES ver, e, r1, r2, phase,
+          fam,    \* family of the scenario
+          kind,   \* kind of the scenario
+          r0,     \* hist: the result of redacting e in a process that has done nothing else
+          hist    \* the calls the same process handled before the one under observation, oldest first
+vars == <<ver, e, r1, r2, phase, fam, kind, r0, hist>>
 
 Types == ProtectedTypes \cup {"other"}
 \* "other" is realised as m.room.message (std) or as a custom type with escapable characters (esc)
@@ -109,25 +140,25 @@ KeyOrder == <<"event_id", "room_id", "sender", "state_key", "hashes", "signature
               "notifications", "history_visibility", "aliases", "reason", "body", "type", "content">>
 KeyIdx == [k \in {KeyOrder[i] : i \in 1..Len(KeyOrder)} |-> CHOOSE i \in 1..Len(KeyOrder) : KeyOrder[i] = k]
 \* (PDUs are built through EventBuilder.Build, which canonicalises: no exponent spelling there)
-Free(i) == LET c == FreeClasses[(i % NC) + 1] IN IF Family = "pdu" /\ c = "iexp" THEN "zero" ELSE c
+Free(f, i) == LET c == FreeClasses[(i % NC) + 1] IN IF f = "pdu" /\ c = "iexp" THEN "zero" ELSE c
 
-TopClass(k, t, off, mand) ==
+TopClass(f, k, t, off, mand) ==
     CASE k = "type" -> IF t = "other" /\ off % 2 = 1 THEN "esc" ELSE "std"
       [] k = "content" -> "std"
-      [] Family = "pdu" /\ k = "depth" -> IF off % 3 = 1 THEN "zero" ELSE "std"               \* depth 0
-      [] Family = "pdu" /\ k = "origin_server_ts" -> IF off % 3 = 2 THEN "zero" ELSE "std"    \* timestamp 0
+      [] f = "pdu" /\ k = "depth" -> IF off % 3 = 1 THEN "zero" ELSE "std"               \* depth 0
+      [] f = "pdu" /\ k = "origin_server_ts" -> IF off % 3 = 2 THEN "zero" ELSE "std"    \* timestamp 0
       [] k \in mand -> "std"
-      [] Family = "pdu" /\ k \in {"state_key", "redacts"} ->        \* typed as strings by the PDU parser
+      [] f = "pdu" /\ k \in {"state_key", "redacts"} ->        \* typed as strings by the PDU parser
              IF (KeyIdx[k] + off) % 2 = 0 THEN "std" ELSE "esc"
-      [] OTHER -> Free(KeyIdx[k] + off)
+      [] OTHER -> Free(f, KeyIdx[k] + off)
 
-ConClass(k, off, tsh) ==
+ConClass(f, k, off, tsh) ==
     IF k = NestedKey
     THEN (CASE tsh = "nonobj_str" -> "esc" [] tsh = "nonobj_arr" -> "arr" [] tsh = "nonobj_null" -> "null"
             [] tsh = "nonobj" -> NonObjectClasses[(off % Len(NonObjectClasses)) + 1]      \* by offset: 0, "", false, ...
             [] tsh = "empty" -> "eobj"
             [] OTHER -> "obj")
-    ELSE Free(KeyIdx[k] + 3 + off)
+    ELSE Free(f, KeyIdx[k] + 3 + off)
 
 \* shapes of content.third_party_invite when present
 \*   empty {}; other1 / other2: an object without `signed` (one / two other keys, one of them `signedx`);
@@ -139,19 +170,19 @@ TpiShapesMember == {"empty", "other1", "other2", "signed", "signed+other", "sign
 TpiShapesOther == {"empty", "other1", "signed+other", "nonobj_str"}
 TpiShapes(t) == IF t = "m.room.member" THEN TpiShapesMember ELSE TpiShapesOther
 IsNonObj(sh) == sh \in {"nonobj_str", "nonobj_arr", "nonobj_null", "nonobj"}
-TpiOf(sh, off) ==
+TpiOf(f, sh, off) ==
     LET ks == CASE sh = "signed+other" -> {"signed", "display_name"}
                 [] sh \in {"signed", "signed_eobj", "signed_null"} -> {"signed"}
                 [] sh = "other1" -> {"display_name"}
                 [] sh = "other2" -> {"display_name", "signedx"}
                 [] OTHER -> {}
         sc == CASE sh = "signed_eobj" -> "eobj" [] sh = "signed_null" -> "null"
-                [] OTHER -> IF off % 2 = 0 THEN "std" ELSE Free(off)
+                [] OTHER -> IF off % 2 = 0 THEN "std" ELSE Free(f, off)
     IN [obj |-> ~IsNonObj(sh),
         keys |-> [k \in ks |-> IF k = "signed" THEN sc ELSE "esc"]]
 
 \* --- presence shapes ---------------------------------------------------------------------------
-Pool(t) == ({"t"} \X (IF Family = "raw" THEN TopOptRaw ELSE TopOptPdu)) \cup ({"c"} \X ConCand(t))
+Pool(f, t) == ({"t"} \X (IF f = "raw" THEN TopOptRaw ELSE TopOptPdu)) \cup ({"c"} \X ConCand(t))
 \* mode: "full" | "lite" | "all"
 Shapes(P, mode) == {P}
                    \cup (IF mode = "all" THEN {} ELSE {{}} \cup {{x} : x \in P})
@@ -162,38 +193,139 @@ ForeignShapes(t, P, mode) == {P \cup ({"c"} \X Foreign(t))}
 ModeOf(off, v) == IF off \in FullOffsets /\ v \in FullVersions THEN "full"
                   ELSE IF off \in FullOffsets \cup LiteOffsets THEN "lite" ELSE "all"
 
-EventOf(v, t, sh, off, tsh) ==
+EventOf(f, v, t, sh, off, tsh) ==
     LET topopt == {x[2] : x \in {y \in sh : y[1] = "t"}}
         conk == {x[2] : x \in {y \in sh : y[1] = "c"}}
         \* room versions with domainless room IDs: the create event (state key "") has no room_id
-        v12create == Family = "pdu" /\ DomainlessRoomIDs(v) /\ t = "m.room.create"
+        v12create == f = "pdu" /\ DomainlessRoomIDs(v) /\ t = "m.room.create"
         roomless == v12create /\ "state_key" \in topopt
-        mand == IF Family = "pdu" THEN PduMandatory(v, roomless) ELSE {"type", "content"}
+        mand == IF f = "pdu" THEN PduMandatory(v, roomless) ELSE {"type", "content"}
         topk == mand \cup topopt
-        tp == IF NestedKey \in conk THEN TpiOf(tsh, off) ELSE NoTpi
+        tp == IF NestedKey \in conk THEN TpiOf(f, tsh, off) ELSE NoTpi
     IN [type |-> t,
-        top |-> [k \in topk |-> IF k = "state_key" /\ v12create THEN "std" ELSE TopClass(k, t, off, mand)],
-        con |-> [k \in conk |-> ConClass(k, off, tsh)],
+        top |-> [k \in topk |-> IF k = "state_key" /\ v12create THEN "std" ELSE TopClass(f, k, t, off, mand)],
+        con |-> [k \in conk |-> ConClass(f, k, off, tsh)],
         tpi |-> tp]
 
+\* --- kind "vocab": unlisted keys drawn from the member names the library's own sources use -----------------
+\* The file is written by checks/c05.py from the tree under test: {"names": [...], "casevariants": [...]}, both
+\* lists duplicate-free and disjoint.  `casevariants` are the names that differ from a listed top-level key only
+\* in letter case: as top-level keys they are enumerated one per record (what the specification says about them
+\* is no different: not listed, so removed).
+VocabFile == IF "C05_VOCAB" \in DOMAIN IOEnv THEN IOEnv.C05_VOCAB ELSE ""
+VocabDoc == IF VocabFile = "" THEN [names |-> <<>>, casevariants |-> <<>>] ELSE JsonDeserialize(VocabFile)
+VocabTop == VocabDoc.names
+VocabCase == VocabDoc.casevariants
+VocabCon == VocabTop \o VocabCase
+VocabSeq(pos) == CASE pos = "top" -> VocabTop [] pos = "topcase" -> VocabCase [] OTHER -> VocabCon
+CS(pos) == IF pos = "topcase" THEN 1 ELSE ChunkSize
+NChunks(pos) == (Len(VocabSeq(pos)) + CS(pos) - 1) \div CS(pos)
+ChunkIdx(pos, c) == {i \in 1..Len(VocabSeq(pos)) : (i - 1) \div CS(pos) = c - 1}
+
+TypeOrder == <<"m.room.member", "m.room.create", "m.room.join_rules", "m.room.power_levels",
+               "m.room.history_visibility", "m.room.aliases", "m.room.redaction", "other">>
+TypeIdx(t) == CHOOSE i \in 1..Len(TypeOrder) : TypeOrder[i] = t
+\* top-level members of the event format that a PDU parser types (string / object): well-typed in the pdu family
+PduTyped == {"redacts", "sticky", "msc4354_sticky"}
+
+\* positions: "top" a chunk of the vocabulary as additional top-level keys (raw: on top of every listed key),
+\*            "con" a chunk as additional content keys, on top of the content keys the algorithm lists for the type,
+\*            "topcase" one case variant as an additional top-level key
+\* In every position the names the algorithm lists there are taken out of the chunk: what is left is unlisted.
+VocabEvent(f, v, t, pos, c) ==
+    LET a == RedactionAlgo(v)
+        seq == VocabSeq(pos)
+        off == c + TypeIdx(t)
+        listed == IF pos = "con" THEN ContentKeep(a, t) \cup {NestedKey} ELSE TopKeep(a)
+        extra == {i \in ChunkIdx(pos, c) : seq[i] \notin listed}
+        names == {seq[i] : i \in extra}
+        cls(k) == IF f = "pdu" /\ pos # "con" /\ k \in PduTyped THEN "std"
+                  ELSE Free(f, (CHOOSE i \in extra : seq[i] = k) + off)
+        mand == IF f = "pdu" THEN PduMandatory(v, FALSE) ELSE {"type", "content"}
+        basek == IF f = "raw" /\ pos = "top" THEN TopKeep(a) ELSE mand
+        conbase == IF pos = "con" THEN ContentKeep(a, t) ELSE {}
+    IN [type |-> t,
+        top |-> [k \in basek \cup (IF pos = "con" THEN {} ELSE names) |->
+                    IF k \in basek THEN TopClass(f, k, t, off, mand) ELSE cls(k)],
+        con |-> [k \in conbase \cup (IF pos = "con" THEN names ELSE {}) |->
+                    IF k \in conbase THEN ConClass(f, k, off, "none") ELSE cls(k)],
+        tpi |-> NoTpi]
+
+\* --- kind "hist": calls handled by the same process before the call under observation ------------------------
+\* An earlier call is described by the entry point it came through, the redaction algorithm it used, its outcome
+\* and the type of its event.  Its event has EVERY key that any algorithm lists (top level, content of every
+\* type, third_party_invite.signed), each with the value class "poison", which no event under observation uses.
+\* Refused calls: the text is valid JSON, but `content` is an array / a string, or `type` a number / an object.
+HistTypes == {"other", "m.room.create", "m.room.member"}
+HistEntries == {"json",        \* IRoomVersion.RedactEventJSON
+                "pdu",         \* trusted parse, PDU.Redact()
+                "untrusted"}   \* NewEventFromUntrustedJSON of an event whose content hash does not match
+Refusals == {"content-array", "content-string", "type-number", "type-object"}
+PoisonTypes(en) == IF en = "json" THEN {"m.room.create", "m.room.member"} ELSE {"m.room.member"}
+AllCalls == {c \in [entry : HistEntries, algo : Algos, outcome : {"accepted"} \cup Refusals,
+                    ptype : {"m.room.create", "m.room.member"}] : c.ptype \in PoisonTypes(c.entry)}
+PoisonEvent(pt) == [type |-> pt,
+                    top |-> [k \in TopKeepOld |-> "poison"],
+                    con |-> [k \in AllKeepKeys |-> "poison"],
+                    tpi |-> [obj |-> TRUE, keys |-> [k \in {"signed"} |-> "poison"]]]
+\* longer histories are bounded: two calls through RedactEventJSON with the same algorithm and event type that
+\* differ in the outcome, before an event without content keys
+Follows(c) == IF hist = <<>> THEN TRUE
+              ELSE /\ DOMAIN e.con = {}
+                   /\ c.entry = "json" /\ hist[1].entry = "json"
+                   /\ c.algo = hist[1].algo /\ c.ptype = hist[1].ptype /\ c.outcome # hist[1].outcome
+
+InitLattice ==
+    \E f \in Families, v \in Versions, t \in Types, off \in FullOffsets \cup LiteOffsets \cup AllOnlyOffsets :
+    \E sh \in Shapes(Pool(f, t), ModeOf(off, v)) \cup ForeignShapes(t, Pool(f, t), ModeOf(off, v)) :
+    \E tsh \in (IF <<"c", NestedKey>> \in sh THEN TpiShapes(t) ELSE {"none"}) :
+       /\ kind = "lattice" /\ fam = f /\ ver = v
+       /\ e = EventOf(f, v, t, sh, off, tsh)
+
+InitVocab ==
+    \E f \in Families, v \in Versions, t \in Types :
+    \E pos \in {"top", "con"} \cup (IF f = "raw" /\ t \in {"other", "m.room.create"} THEN {"topcase"} ELSE {}) :
+    \E c \in 1..NChunks(pos) :
+       /\ kind = "vocab" /\ fam = f /\ ver = v
+       /\ e = VocabEvent(f, v, t, pos, c)
+
+InitHist ==
+    \E f \in Families, v \in Versions, t \in HistTypes :
+    \E sh \in {{}, Pool(f, t) \ ({"t"} \X CaseVariants)} :     \* (case variants: the lattice has them)
+       /\ kind = "hist" /\ fam = f /\ ver = v
+       /\ e = EventOf(f, v, t, sh, 0, IF <<"c", NestedKey>> \in sh THEN "signed" ELSE "none")
+
 Init ==
-    /\ \E v \in Versions, t \in Types, off \in FullOffsets \cup LiteOffsets \cup AllOnlyOffsets :
-       \E sh \in Shapes(Pool(t), ModeOf(off, v)) \cup ForeignShapes(t, Pool(t), ModeOf(off, v)) :
-       \E tsh \in (IF <<"c", NestedKey>> \in sh THEN TpiShapes(t) ELSE {"none"}) :
-          /\ ver = v
-          /\ e = EventOf(v, t, sh, off, tsh)
+    /\ \/ "lattice" \in Kinds /\ InitLattice
+       \/ "vocab" \in Kinds /\ InitVocab
+       \/ "hist" \in Kinds /\ InitHist
     /\ r1 = e /\ r2 = e
+    /\ r0 = RedactV(ver, e)      \* what redaction of e gives in a process that has done nothing else
+    /\ hist = <<>>
     /\ phase = "init"
 
+\* an earlier call of the same process that the library carried out ...
+EarlierAccepted ==
+    /\ phase = "init" /\ kind = "hist" /\ Len(hist) < MaxHist
+    /\ \E c \in AllCalls : c.outcome = "accepted" /\ Follows(c) /\ hist' = Append(hist, c)
+    /\ UNCHANGED <<ver, e, r0, r1, r2, phase, fam, kind>>
+\* ... and one that it refused
+EarlierRefused ==
+    /\ phase = "init" /\ kind = "hist" /\ Len(hist) < MaxHist
+    /\ \E c \in AllCalls : c.outcome \in Refusals /\ Follows(c) /\ hist' = Append(hist, c)
+    /\ UNCHANGED <<ver, e, r0, r1, r2, phase, fam, kind>>
+
 \* the redaction operation of room version `ver`, applied once and applied to its own result
+\* (redaction reads nothing but its argument: `hist` does not occur)
 Check ==
     /\ phase = "init"
+    /\ (kind = "hist" => hist # <<>>)
     /\ r1' = RedactV(ver, e)
     /\ r2' = RedactV(ver, RedactV(ver, e))
     /\ phase' = "done"
-    /\ UNCHANGED <<ver, e>>
+    /\ UNCHANGED <<ver, e, r0, fam, kind, hist>>
 
-Next == Check
+Next == EarlierAccepted \/ EarlierRefused \/ Check
 Spec == Init /\ [][Next]_vars
 
 Done == phase = "done"
@@ -224,6 +356,22 @@ PExact ==
                    ((NestedKey \in DOMAIN r1.con) =
                     (A = 5 /\ e.type = "m.room.member" /\ NestedKey \in DOMAIN e.con /\ e.tpi.obj /\ "signed" \in DOMAIN e.tpi.keys))
 PIdempotent == Done => r2 = r1
+\* redaction is a function of the event: whatever the process handled before (accepted or refused), the result is
+\* the one of a process without history, and nothing of an earlier call's event is in it
+NoPoison(x) == /\ \A k \in DOMAIN x.top : x.top[k] # "poison"
+               /\ \A k \in DOMAIN x.con : x.con[k] # "poison"
+               /\ \A k \in DOMAIN x.tpi.keys : x.tpi.keys[k] # "poison"
+PHistory ==
+    /\ NoPoison(e)
+    /\ \A i \in 1..Len(hist) : hist[i] \in AllCalls /\ ~NoPoison(PoisonEvent(hist[i].ptype))
+    /\ Done => /\ r1 = r0
+               /\ NoPoison(r1) /\ NoPoison(r2)
+               /\ DOMAIN r1.top \subseteq DOMAIN e.top /\ DOMAIN r1.con \subseteq DOMAIN e.con
+               \* an earlier accepted call had a result of its own, with its own values
+               /\ \A i \in 1..Len(hist) : hist[i].outcome = "accepted" =>
+                      LET p == Redact(hist[i].algo, PoisonEvent(hist[i].ptype)) IN
+                      /\ \A k \in DOMAIN p.top : p.top[k] = "poison"
+                      /\ DOMAIN p.top = TopKeep(hist[i].algo)
 PCore ==
     Done => /\ r1.type = e.type
             /\ \A k \in CoreKeys : /\ (k \in DOMAIN r1.top) = (k \in DOMAIN e.top)
@@ -251,7 +399,7 @@ PSanity ==
 
 
 Emit ==
-    Done => PrintT(ToJson([fam |-> Family, ver |-> ver, algo |-> A, type |-> e.type,
+    Done => PrintT(ToJson([fam |-> fam, kind |-> kind, hist |-> hist, ver |-> ver, algo |-> A, type |-> e.type,
                            top |-> e.top, con |-> e.con,
                            tpiobj |-> e.tpi.obj, tpi |-> e.tpi.keys,
                            ktop |-> DOMAIN r1.top, kcon |-> DOMAIN r1.con, ktpi |-> DOMAIN r1.tpi.keys]))
